@@ -1,0 +1,18 @@
+//go:build verif
+
+// Contracts for gzv (contract-based deductive verification, /verif). Comment-only file.
+package zrpc
+
+// C04 per-call settings win: the options the caller passes to NewClient are applied after the ones derived from the
+// configuration (the configured Timeout among them), in the caller's order - they are the tail of what the internal client gets
+//@ func NewClient
+//@   property C04
+//@   call NewClient#0: assert len(arg_opts) >= len(options)
+//@   call NewClient#0: assert forall(i.(int), implies(0 <= i && i < len(options), arg_opts[len(arg_opts) - len(options) + i] == options[i]))
+
+// trusted frame: building the target string touches nothing but discov's account / TLS registries (ghost discovRegs)
+//@ ghost var discovRegs int
+//@ func (cc RpcClientConf) BuildTarget
+//@   trusted
+//@   modifies discovRegs
+//@   allocates
